@@ -54,6 +54,15 @@ pub fn register(m: &mut HashMap<&'static str, OpFn>) {
         #[allow(deprecated)]
         let e2 = EphemeralSecret::new(FixedRng(k.to_vec(), 0));
         o.push(hex(PublicKey::from(&e2).as_bytes()));
+        // the remaining deprecated constructors and the AsRef views
+        #[allow(deprecated)]
+        let r2 = ReusableSecret::new(FixedRng(k.to_vec(), 0));
+        o.push(hex(PublicKey::from(&r2).as_bytes()));
+        #[allow(deprecated)]
+        let s3 = StaticSecret::new(FixedRng(k.to_vec(), 0));
+        o.push(hex(&s3.to_bytes()));
+        o.push(hex(AsRef::<[u8]>::as_ref(&s)));
+        o.push(hex(AsRef::<[u8]>::as_ref(&s.diffie_hellman(&their))));
         o
     });
     m.insert("x.pubkey", |a| {
